@@ -453,6 +453,9 @@ def _config_stacks(kind: str, thorough: bool):
                     files.append({key: base})
                 for code, code_default in ((key, key_default), ("code_b", True)):
                     yield files, {}, code, code_default, False
+                # -e / -d on the command line (`settings`), also with the value that is the code's built-in default
+                for flag in (True, False):
+                    yield files, {"settings": {key: flag}}, key, key_default, False
 
 
 def _config_chunk(args):
